@@ -60,14 +60,22 @@ def roundtrip_errors(spec, obj, direction, x):
     if not np.array_equal(mid, mid2, equal_nan=True) and not np.allclose(mid, mid2, rtol=1e-12, atol=0, equal_nan=True):
         errs.append(f"{'transform' if direction == 'fwd' else 'inverse'}_and_log_det returns a different point than the plain method: {mid2} vs {mid}")
     x = np.asarray(x, dtype=float)
-    # domain / saturation guards: the property quantifies over the domain (codomain) and excludes float saturation
-    if not np.all(np.isfinite(mid)) or not np.all(np.isfinite(x)):
+    # domain guards: the property quantifies over the domain (codomain) of each map
+    if not np.all(np.isfinite(x)):
         return errs
     if direction == "inv":
         if k in ("exp", "softplus") and np.any(x <= 0):
             return errs
         if k == "tanh" and np.any(np.abs(x) >= 1):
             return errs
+    if not np.all(np.isfinite(mid)):
+        # float saturation is excused only where the TRUE image leaves the double range: exp(x) for x > 709
+        if k == "exp" and direction == "fwd" and np.all(np.isfinite(mid) | (x > 709)):
+            return errs
+        i = int(np.argmax(~np.isfinite(mid).ravel()))
+        errs.append(f"{'transform' if direction == 'fwd' else 'inverse'}({x.ravel()[i]!r}) = {mid.ravel()[i]!r}: non-finite image of a finite point of the "
+                    f"{'domain' if direction == 'fwd' else 'codomain'}, so the round trip cannot return it")
+        return errs
     if k in ("exp", "softplus") and direction == "fwd" and (np.any(mid == 0) or np.any(x > 30) or np.any(x < -30)):
         return errs  # saturation / catastrophic conditioning in floats
     if k == "tanh" and direction == "fwd" and np.any(np.abs(x) > 15):
